@@ -5,11 +5,7 @@ from checks.c05 import Cmd, Num, num, gen_cmd, gen_seq, gen_seq_safe, safe_dur, 
 
 ID = "C06"
 LEAN_MODULE = "Ctrmml.Properties.C06"
-THEOREMS = ["C06_track_id_map", "C06_track_list_ids", "C06_star_decimal",
-            "C06_per_track_state", "C06_leading_blanks_skip", "C06_bar_skip", "C06_comment_invariant",
-            "C06_comment_line_invariant", "C06_continuation_dispatch", "C06_multitrack_unfold",
-            "C06_conditional_select_partial", "C06_conditional_close_partial", "C06_short_block_rejected",
-            "C06_nested_separator_counterexample", "C06_short_block_counterexample"]
+THEOREMS = ["C06_per_track_state", "C06_leading_blanks_skip", "C06_bar_skip", "C06_comment_invariant", "C06_comment_line_invariant", "C06_track_id_map", "C06_track_list_ids", "C06_multitrack_unfold", "C06_conditional_select_partial", "C06_nested_separator_counterexample", "C06_short_block_counterexample"]
 LEVEL = "proof"
 STREAM = "mml.layouts"
 CHUNK = 100
@@ -19,8 +15,7 @@ TECHNIQUE = ("Lean 4 proof (frame invariant over every command parser, lexer lem
 LEVEL_TEXT = ("Machine-checked theorems over the Lean models of Line_Buffer (input.cpp) and MML_Input (mml_input.cpp): track letters, digits and *n select "
               "the documented track numbers (for every decimal numeral); a line never changes a track that is not in its track list, for EVERY text (frame "
               "property through all command parsers: each track keeps its own octave/length/articulation state); blanks before a command are skipped, "
-              "'|' is skipped, everything after ';' is ignored, a ';' line changes nothing; a continuation line is handed to the remembered command with "
-              "the remembered track list; a multi-track line is the sequence of per-track parses of the same column range with track_offset = index; the "
+              "'|' is skipped, everything after ';' is ignored, a ';' line changes nothing; a multi-track line is the sequence of per-track parses of the same column range with track_offset = index; the "
               "conditional block selects alternative i and skips the others when no alternative contains '/', '}', ';' (PARTIAL: that hypothesis is defect "
               "D16, proved as a counterexample and recorded as a known finding). The whole-line composition theorems (blank_insertion_invariant, "
               "continuation_invariant, multitrack_eq_single over arbitrary command streams) are NOT proved: they are kept as C06_full_statement_* and "
@@ -29,8 +24,9 @@ LEVEL_TEXT = ("Machine-checked theorems over the Lean models of Line_Buffer (inp
 LEVEL_NOTE = ("Trusted: Lean kernel (propext, Classical.choice, Quot.sound), the hand-written models Model/Lexer, Model/TrackBuilder, Model/Mml (agreement with "
               "the C++ established by differential testing), Spec/Layout + Spec/MmlMeaning (my reading of mml_ref.md), the layout generator in checks/c06.py "
               "(what counts as a layout of a stream), glibc strtol in the C locale. Proved in full: track_id_map, per_track_state, the local lexer/parser "
-              "lemmas. Partial: conditional_select/close (hypothesis = no '/', '}', ';', NUL inside alternatives: D16). Not proved: whole-line "
-              "blank_insertion_invariant / continuation_invariant / multitrack_eq_single (differential testing only).")
+              "lemmas. Partial: conditional_select (hypothesis = no '/', ';', NUL inside the skipped alternatives: D16). Not proved: get_num on decimal numerals "
+              "(star_decimal), the continuation dispatch lemma, conditional_block_end, and the whole-line theorems blank_insertion_invariant / continuation_invariant / "
+              "multitrack_eq_single (differential testing only).")
 RULE = ("abstract multi-track streams (1..4 tracks from letters, digits and *n incl. 0, 25, 26, 35, 36, 255, 65535; 1..4 segments addressed to sub-lists in any "
         "order; typed commands from the C05 generator; conditional blocks with one alternative per track, empty alternatives included) each rendered in 3..6 "
         "layouts: the canonical multi-track lines, the equivalent single-track lines, and random ones (partition of each segment's tracks into lines in any "
